@@ -18,8 +18,24 @@ class ModelError(Exception):
 class Kind:
     """abstract value kind with the real class relations (np.float64 IS a float, np.complex128 IS a complex, np.int64 is NOT an int, bool IS an int)"""
 
-    def __init__(self, name, classes, imag_zero=True, integral=False):
+    def __init__(self, name, classes, imag_zero=True, integral=False, extra=None):
         self.name, self.classes, self.imag_zero, self.integral = name, frozenset(classes), imag_zero, integral
+        self.extra = dict(extra or {})          # model attributes of this element (e.g. free_symbols of a symbolic value)
+
+    def with_attrs(self, **kw):
+        return Kind(self.name, self.classes, self.imag_zero, self.integral, dict(self.extra, **kw))
+
+    # a model element standing for the symbol named n compares (and hashes) like n, so that `value in params` / `{value} <= params`
+    # mean what they mean for the SymPy symbol when symbols are modelled by their names
+    def __eq__(self, other):
+        if isinstance(other, str) and self.extra.get("symbol") is not None:
+            return self.extra["symbol"] == other
+        return self is other
+
+    def __hash__(self):
+        if self.extra.get("symbol") is not None:
+            return hash(self.extra["symbol"])
+        return id(self) >> 4
 
     def __repr__(self):
         return self.name
@@ -41,6 +57,15 @@ KINDS = {
     "NdArray": Kind("NdArray", {"np.ndarray", "object"}),
 }
 COMPLEX_KINDS = ("PyComplex", "PyComplex0", "NpComplex", "NpComplex0")
+_SYM_BASE = {"sym.Expr", "sym.Basic", "sympy.Expr", "sympy.Basic", "object"}
+SYM_KINDS = {
+    "Symbol": Kind("Sym", _SYM_BASE | {"sym.Symbol", "sympy.Symbol", "Symbol", "sym.Atom", "sym.AtomicExpr"}),
+    "Add": Kind("Sym", _SYM_BASE | {"sym.Add", "sympy.Add", "sym.AssocOp"}),
+    "Mul": Kind("Sym", _SYM_BASE | {"sym.Mul", "sympy.Mul", "sym.AssocOp"}),
+    "Pow": Kind("Sym", _SYM_BASE | {"sym.Pow", "sympy.Pow"}),
+    "Function": Kind("Sym", _SYM_BASE | {"sym.Function", "sympy.Function"}),
+}
+SYM_CLASSES = set().union(*[k.classes for k in SYM_KINDS.values()]) | {"sym.Number", "sym.Integer", "sym.Float", "sym.Rational", "sym.NumberSymbol"}
 
 
 def class_name(node):
@@ -54,6 +79,15 @@ INLINER = [None]      # set by the rule modules: call node -> (inlined expressio
 
 def set_inliner(f):
     INLINER[0] = f
+
+
+FUNCEVAL = [None]
+
+
+def set_funceval(f):
+    """f(evaluator, call node) -> model value of a call to a package helper with an if-structured body (finite-model interpretation of the
+    helper on the model arguments), or AEval.NO"""
+    FUNCEVAL[0] = f
 
 
 class AEval:
@@ -79,18 +113,25 @@ class AEval:
             if isinstance(e.op, ast.USub):
                 return -self.ev(e.operand)
         if isinstance(e, ast.BoolOp):
-            vals = [self.ev(x) for x in e.values]
-            if isinstance(e.op, ast.And):
-                r = True
-                for v in vals:
-                    r = v
-                    if not self.truth(v):
-                        return v
-                return r
-            for v in vals:
-                if self.truth(v):
-                    return v
-            return vals[-1]
+            # three-valued (Kleene) evaluation: an operand the model cannot decide does not hide a later operand that decides the result
+            is_and = isinstance(e.op, ast.And)
+            unknown = None
+            last = True if is_and else False
+            for x in e.values:
+                try:
+                    v = self.ev(x)
+                    t = self.truth(v)
+                except Inconclusive as ex:
+                    unknown = unknown or ex
+                    continue
+                if is_and and not t:
+                    return v if unknown is None else False
+                if not is_and and t:
+                    return v if unknown is None else True
+                last = v
+            if unknown is not None:
+                raise unknown
+            return last
         if isinstance(e, ast.IfExp):
             return self.ev(e.body) if self.truth(self.ev(e.test)) else self.ev(e.orelse)
         if isinstance(e, ast.Compare):
@@ -114,9 +155,13 @@ class AEval:
             raise Inconclusive("guard evaluator: operator in `%s`" % u(e))
         if isinstance(e, ast.Call):
             return self.call(e)
+        if isinstance(e, (ast.SetComp, ast.ListComp, ast.GeneratorExp)):
+            return self.comprehension(e)
         if isinstance(e, ast.Attribute):
             base = self.ev(e.value)
             if isinstance(base, Kind):
+                if e.attr in base.extra:
+                    return base.extra[e.attr]
                 if e.attr == "imag":
                     return 0 if base.imag_zero else 1
                 if e.attr == "real":
@@ -138,6 +183,35 @@ class AEval:
                 except IndexError:
                     raise ModelError("IndexError")
         raise Inconclusive("guard evaluator: unsupported expression `%s`" % u(e))
+
+    def comprehension(self, e):
+        """comprehension over finite model collections"""
+        results = []
+
+        def rec(gi, atom):
+            if gi == len(e.generators):
+                results.append(AEval(atom).ev(e.elt))
+                return
+            g = e.generators[gi]
+            if not isinstance(g.target, ast.Name):
+                raise Inconclusive("guard evaluator: comprehension target `%s`" % u(g.target))
+            seq = AEval(atom).ev(g.iter)
+            if isinstance(seq, dict):
+                seq = tuple(seq.keys())
+            if not isinstance(seq, (tuple, list, frozenset, set)):
+                raise Inconclusive("guard evaluator: comprehension over a non-collection")
+            for item in (sorted(seq, key=repr) if isinstance(seq, (set, frozenset)) else seq):
+                def atom2(node, item=item, name=g.target.id, outer=atom):
+                    if isinstance(node, ast.Name) and node.id == name:
+                        return item
+                    return outer(node)
+                sub = AEval(atom2)
+                if all(sub.truth(sub.ev(c)) for c in g.ifs):
+                    rec(gi + 1, atom2)
+        rec(0, self.atom)
+        if isinstance(e, ast.SetComp):
+            return frozenset(results)
+        return tuple(results)
 
     def truth(self, v):
         if isinstance(v, Kind):
@@ -175,10 +249,13 @@ class AEval:
             names = [class_name(c) for c in cls]
             known = set().union(*[k.classes for k in KINDS.values()]) | {"np.bool_", "np.str_", "list", "tuple", "dict", "set", "Iterable", "sym.Symbol", "np.floating", "np.complexfloating",
                                                                             "np.integer", "np.number", "RegRefTransform", "np.unsignedinteger", "np.int32", "np.float32", "np.complex64", "bytes", "type(None)"}
+            known |= SYM_CLASSES
             for n in names:
                 if n not in known:
                     raise Inconclusive("guard evaluator: unknown class %s in isinstance" % n)
             return any(n in x.classes for n in names)
+        if short == "RegRefTransform" and len(args) == 1 and not e.keywords:
+            return ("RRT", self.ev(args[0]))            # construction of a register transform around that very value
         if fn in ("set", "frozenset") and len(args) <= 1:
             if not args:
                 return frozenset()
@@ -274,6 +351,10 @@ class AEval:
             r = INLINER[0](e)
             if r is not None:
                 return self.ev(r[0])
+        if FUNCEVAL[0] is not None:
+            r = FUNCEVAL[0](self, e)
+            if r is not AEval.NO:
+                return r
         raise Inconclusive("guard evaluator: unsupported call `%s`" % u(e))
 
     def kind(self, node):
@@ -556,5 +637,46 @@ def handler_ok(try_stmt, handler):
     protected block would have bound and raises when that fails too"""
     if always_raises(handler.body):
         return True
+    if try_stmt.orelse:
+        # value-then-continue form (`try: r = cast(v) except: <fallback> else: use(r)`): the fallback must end, on every path that does
+        # not raise, with the same continuation (up to the name of the temporary)
+        import re as _re
+
+        def text(stmts):
+            return [_re.sub(r"\b_r\d+\b", "_r", " ".join(u(x).split())) for x in stmts]
+        want = text(try_stmt.orelse)
+
+        def ends_with(stmts):
+            if not stmts:
+                return False
+            if always_raises(stmts):
+                return True
+            last = stmts[-1]
+            if isinstance(last, ast.Try):
+                tail = last.orelse if last.orelse else last.body
+                return ends_with(tail) and all(ends_with(h.body) for h in last.handlers)
+            if isinstance(last, ast.If) and last.orelse:
+                return ends_with(last.body) and ends_with(last.orelse)
+            return text(stmts)[-len(want):] == want
+        if ends_with(handler.body):
+            return True
+    if try_stmt.body and isinstance(try_stmt.body[-1], ast.Return) and isinstance(try_stmt.body[-1].value, ast.Call):
+        # `try: return cast(v)`: a fallback handler ends, on every path that does not raise, by returning a recomputed value (a call)
+
+        def returns_call(stmts):
+            if not stmts:
+                return False
+            if always_raises(stmts):
+                return True
+            last = stmts[-1]
+            if isinstance(last, ast.Return):
+                return isinstance(last.value, ast.Call)
+            if isinstance(last, ast.Try):
+                return returns_call(last.orelse if last.orelse else last.body) and all(returns_call(h.body) for h in last.handlers)
+            if isinstance(last, ast.If) and last.orelse:
+                return returns_call(last.body) and returns_call(last.orelse)
+            return False
+        if returns_call(handler.body):
+            return True
     need = definitely_bound(try_stmt.body)
     return bool(need) and need <= definitely_bound(handler.body)
